@@ -2,7 +2,7 @@
 CONSTANTS
   MaxH = 3
   MaxVer = 2
-  MaxOps = 5
+  MaxOps = 7
   InitH <- EmptyDB
   Boundary = 99
   Genesis = TRUE
